@@ -546,6 +546,17 @@ static void gen_codecw(hctx* h) {
                 }
             }
         }
+        /* incompressible inputs well beyond one deflate block buffer (stored blocks: the library's bound formula is exact only for the
+         * default memLevel / block size), destination exactly the advertised bound */
+        { static const size_t bn[] = { 40000, 65536, 70000, 150000, 400000 };
+          for (size_t i = 0; i < (h->thorough ? 5u : 3u); i++) {
+              uint8_t* q = h_alloc(bn[i]); h_fill(h, q, bn[i], 0);
+              for (size_t z = 0; z < bn[i]; z++) q[z] = (uint8_t)h_next(h);
+              size_t b = zs ? carquet_zstd_compress_bound(bn[i]) : carquet_gzip_compress_bound(bn[i]);
+              static const int lv[] = { 1, 6, 9 };
+              for (int li = 0; li < 3; li++) do_w_c(h, zs, q, bn[i], b, zs && li == 2 ? 12 : lv[li]);
+              free(q);
+          } }
         long m = h->thorough ? 1500 : 120;
         for (long i = 0; i < m; i++) {
             size_t n = (size_t)h_below(h, h_chance(h, 1, 10) ? maxn : 600);
